@@ -2,7 +2,7 @@
     the family number; the verdict says whether the implementation's observed
     behaviour equals the model's. *)
 From Coq Require Import List ZArith Bool.
-From FF Require Import Sx Dispatch TaskTree StoreModel StoreCheck PreCheck EngineMon TaskRun ShareData Vars KeeperCheck.
+From FF Require Import Sx Dispatch TaskTree StoreModel StoreCheck PreCheck EngineMon TaskRun ShareData Vars KeeperCheck MutexCheck.
 Import ListNotations.
 Local Open Scope Z_scope.
 
@@ -16,12 +16,13 @@ Definition run_monitor (family : Z) (c : sx) : option bool :=
   | 50 => monitor_vars c
   | 60 => monitor_keeper c
   | 61 => monitor_alive c
+  | 70 => monitor_mutex c
   | _ => if (100 <? family) && (family <? 200) then monitor_journal (family - 100) c else None
   end.
 
 Definition run_explain (family : Z) (c : sx) : sx :=
   if (100 <? family) && (family <? 200) then explain_journal (family - 100) c
-  else if family =? 60 then explain_keeper c else if family =? 61 then explain_alive c else L [].
+  else if family =? 60 then explain_keeper c else if family =? 61 then explain_alive c else if family =? 70 then explain_mutex c else L [].
 
 Definition run_case (family : Z) (c : sx) : verdict :=
   match family with
@@ -38,6 +39,7 @@ Definition run_case (family : Z) (c : sx) : verdict :=
   | 50 => check_vars c
   | 60 => check_keeper c
   | 61 => check_keeper c
+  | 70 => check_mutex c
   | _ => if (100 <? family) && (family <? 200)
          then match check_journal_store c with OkCase => check_runs c | v => v end
          else BadCase 0
